@@ -52,6 +52,12 @@ class AsyncioRunner(BaseRunner):
             failure = OrphanedReturn(payload, result)
         self._tasks.discard(asyncio.current_task())
         if not self._payload_failure.done():
+            if type(failure) is StopIteration:
+                # raised by calling ``payload`` itself; a Future refuses StopIteration:
+                # report it as the cause of a RuntimeError, as for a coroutine (PEP 479)
+                error = RuntimeError("payload raised StopIteration")
+                error.__cause__ = failure
+                failure = error
             self._payload_failure.set_exception(failure)
 
     async def manage_payloads(self):
